@@ -26,8 +26,9 @@ CLAIMS = {
             "worker-model theorems + contract refinement (Lean 4) ; differential correspondence of worker threads and of the worksteal scheduler"),
     "C16": ("Lean theorems (load, worksteal): every scheduler call keeps the complete wire log free of anything behind a node's shutdown (hence one shutdown per node), "
             "keeps the ledger duplicate-free (no index outstanding on two nodes) and in range; run commands are pool prefixes, steal requests book suffixes; "
-            "WorkerController.shutdown is modelled and proved idempotent; other modes: correspondence + wire monitors",
-            "contract invariants NoAfter/SentSync/Nodup/Bounded preserved by every act + refinement (Lean 4) ; differential correspondence of all six schedulers with wire monitors"),
+            "WorkerController.shutdown is modelled and proved idempotent; controller level (worksteal): along every sequence of controller events with legal steal answers the wire log has nothing behind "
+            "a shutdown signal and at most one shutdown per worker; other modes: correspondence + wire monitors",
+            "contract invariants NoAfter/SentSync/Nodup/Bounded preserved by every act + refinement, lifted to the DSession loop by induction over events (Lean 4) ; differential correspondence of all six schedulers with wire monitors"),
     "C15": ("Lean theorems: mark_test_pending inserts at the front of the pool; per index #completed + #crash-reported = 1 + #re-queued when the ledger is empty; "
             "unsupported modes raise NotImplementedError",
             "ledger invariant with re-queue ghost (Lean 4) ; differential correspondence with markPending ops"),
@@ -62,8 +63,10 @@ CLAIMS = {
             "induction over message / report sequences (Lean 4) ; differential correspondence of the receiver and of DSession; end-to-end runs compared with -n0 (tallies, ids, fields, exit status, per-worker order)"),
     "C02": ("Lean theorems for the two mechanisms: every check_schedule decision of the load scheduler for a live node leaves it with at least two queued tests, the shutdown signal or an "
             "empty unassigned list (all maxschedchunk values incl. 0/negative, slow/fast); whenever any scheduler reports tests_finished at the end of a loop iteration every scheduled "
-            "worker has been told to shut down. Partial: absence of stand-offs in whole executions (six modes, crashes) is validated by the whole-system simulation on the real classes, not proved",
-            "arithmetic case analysis of check_schedule, DSession invariant (Lean 4) ; whole-system simulation with stand-off detection, differential correspondence of schedulers and of the worker threads (lock pre-emption)"),
+            "worker has been told to shut down; controller level (load): after every iteration of the DSession loop, for every sequence of controller events (ready, collections matching or not, early or late, "
+            "completions, crashes with/without re-queue, replacements, stops) every registered worker is shutting down, holds >= 2 queued tests or the pool is empty, hence the loop never waits with a starved "
+            "registered worker unless collection is in progress or some worker holds >= 2 tests. Partial: absence of stand-offs in whole executions (six modes, crashes) is validated by the whole-system simulation on the real classes, not proved",
+            "arithmetic case analysis of check_schedule, state invariant by induction over scheduler calls lifted to the DSession loop (Lean 4) ; whole-system simulation with stand-off detection, differential correspondence of schedulers and of the worker threads (lock pre-emption)"),
     "C08": ("Lean theorems about the each scheduler (repaired): schedule() sends runtests_all + shutdown to every new node with its whole collection as book, skips started and still-collecting "
             "nodes; the crash item is the head of the dead node's book and the rest is parked; tests_finished is false while a rest is parked; a replacement of the same spec and collection "
             "takes over exactly that rest (and is sent exactly it); a late node with nothing to take over, or with a different collection, is shut down",
